@@ -49,18 +49,20 @@ def obsWords (os : List Bpmn.Model.Engine.Obs) : List String :=
     | .complete n => s!"complete {n}"
     | .err c => s!"error {c}")
 
-/-- family c12nest: the real engine on the program `nestProc d` of `Props/C12Nest` (same element names). The model's three
-steps — start, answer T, answer C — at the extracted configuration, on the very object the theorems are about, against the
+/-- family c12nest: the real engine on the program `nestProc d K` of `Props/C12Nest` (same element names). The model's
+steps — start, answer every innermost task, answer C — at the extracted configuration, on the very object the theorems are about, against the
 recorded history: requests and completions of every step, in order; and the instance completes. -/
 def checkNest (params lines : List String) : CaseResult := Id.run do
-  let some d := (params.head?.bind String.toNat?) | return { bad := ["c12nest params"] }
-  if d == 0 then return { bad := ["c12nest depth 0"] }
-  let p := Bpmn.Props.C12Nest.nestProc d
+  let some (d, k) := (match params with
+    | [d, k] => do let d ← d.toNat?; let k ← k.toNat?; pure (d, k)
+    | _ => none) | return { bad := ["c12nest params"] }
+  if d == 0 || k == 0 then return { bad := ["c12nest depth / length 0"] }
+  let p := Bpmn.Props.C12Nest.nestProc d k
   let cfg := C01.faithful
   let s0 := Bpmn.Model.Engine.start cfg p []
-  let s1 := Bpmn.Model.Engine.answer cfg p s0 "T" 1 (.ok [])
-  let s2 := Bpmn.Model.Engine.answer cfg p s1 "C" 1 (.ok [])
-  let model := [obsWords s0.obs, obsWords s1.obs, obsWords s2.obs]
+  let names := Bpmn.Props.C12Nest.namesFrom (Bpmn.Props.C12Nest.nm 'T') 0 k ++ ["C"]
+  let (steps, sf) := Bpmn.Props.C12Nest.traceC cfg p s0 (names.map (fun n => (n, [])))
+  let model := obsWords s0.obs :: steps.map obsWords
   -- the recorded history, cut at the harness's answers
   let mut segs : List (List String) := []
   let mut cur : List String := []
@@ -87,14 +89,14 @@ def checkNest (params lines : List String) : CaseResult := Id.run do
     xs.filter (fun x => x.startsWith "task " || x.startsWith "error " || x.startsWith "complete E" || x == "complete e")
   let impl := segs.map keep
   if impl != model then
-    r := { r with diffs := [s!"nest depth {d}: engine {impl} model (nestProc {d}) {model}"] }
+    r := { r with diffs := [s!"nest depth {d} chain {k}: engine {impl} model (nestProc {d} {k}) {model}"] }
   if !bad.isEmpty then
     r := { r with specs := bad.map (fun b => s!"nest_stuck: depth {d}: {b}") }
   if done != "1" && bad.isEmpty then
     r := { r with specs := s!"nest_not_complete: depth {d}: both tasks answered, the instance does not complete" :: r.specs }
   -- the model must itself say what the theorem says (a run-time echo of `nest_run`, not a proof)
-  if s2.topLive p || s0.outOfScope.isSome || s1.outOfScope.isSome || s2.outOfScope.isSome then
-    r := { r with specs := s!"nest_model_incomplete: depth {d}: the model's run of nestProc {d} does not complete" :: r.specs }
+  if sf.topLive p || s0.outOfScope.isSome || sf.outOfScope.isSome then
+    r := { r with specs := s!"nest_model_incomplete: depth {d}: the model's run of nestProc {d} {k} does not complete" :: r.specs }
   return { r with nontrivial := r.diffs.isEmpty && r.specs.isEmpty }
 
 end Bpmn.Driver.C12
